@@ -110,6 +110,34 @@ var blockMuts = []blockMut{
 			f.dequeue = false
 		}
 	}},
+	{"systx-keep-first-only", func(w *World, p *goattypes2.ExecutionPayload, f *pfactsGo) {
+		if p.ExtraData[0] > 1 && len(p.Transactions) > 1 {
+			p.Transactions = p.Transactions[:1]
+			f.dequeue = false
+		}
+	}},
+	{"systx-drop-last", func(w *World, p *goattypes2.ExecutionPayload, f *pfactsGo) {
+		if n := int(p.ExtraData[0]); n > 0 && len(p.Transactions) >= n {
+			p.Transactions = append(append([][]byte{}, p.Transactions[:n-1]...), p.Transactions[n:]...)
+			f.dequeue = false
+		}
+	}},
+	{"systx-drop-last-and-announce-fewer", func(w *World, p *goattypes2.ExecutionPayload, f *pfactsGo) {
+		if n := int(p.ExtraData[0]); n > 0 && len(p.Transactions) >= n {
+			p.Transactions = append(append([][]byte{}, p.Transactions[:n-1]...), p.Transactions[n:]...)
+			p.ExtraData = append([]byte{}, p.ExtraData...)
+			p.ExtraData[0]--
+			f.dequeue = false
+		}
+	}},
+	{"systx-drop-first-and-announce-fewer", func(w *World, p *goattypes2.ExecutionPayload, f *pfactsGo) {
+		if n := int(p.ExtraData[0]); n > 0 && len(p.Transactions) >= n {
+			p.Transactions = p.Transactions[1:]
+			p.ExtraData = append([]byte{}, p.ExtraData...)
+			p.ExtraData[0]--
+			f.dequeue = false
+		}
+	}},
 	{"systx-invented", func(w *World, p *goattypes2.ExecutionPayload, f *pfactsGo) {
 		p.Transactions = append([][]byte{{0x60, 0xc0}}, p.Transactions...)
 		p.ExtraData[0]++
@@ -123,8 +151,9 @@ var blockMuts = []blockMut{
 		l := goattypes.LockingRequests{Gas: []*goattypes.GasRequest{goattypes.NewGasRequest(1, big.NewInt(1)), goattypes.NewGasRequest(1, big.NewInt(2))}}
 		p.Requests = l.Encode()
 		f.gas = 2
+		f.sub = false // the reward-pool update of the block message wants exactly one gas request as well
 	}},
-	{"no-gas-request", func(w *World, p *goattypes2.ExecutionPayload, f *pfactsGo) { p.Requests = nil; f.gas = 0 }},
+	{"no-gas-request", func(w *World, p *goattypes2.ExecutionPayload, f *pfactsGo) { p.Requests = nil; f.gas = 0; f.sub = false }},
 	{"undecodable-requests", func(w *World, p *goattypes2.ExecutionPayload, f *pfactsGo) {
 		p.Requests = [][]byte{{0x63, 0x01, 0x02}} // unknown request type (goat-geth accepts truncated bodies of known types)
 		f.reqDec = false
@@ -143,12 +172,16 @@ func runGoatBlock(rng *Rng, n int, st *Stats, param string) ([]string, []any) {
 	var cases []string
 	var replays []any
 	seen := map[string]bool{}
+	forced := strings.Contains(param, "forced")
 	var w *World
 	fresh := func() {
 		if w != nil {
 			w.Close()
 		}
-		w = NewWorld(fmt.Sprintf("gb-%d", rng.Intn(1000)), false, nil)
+		w = NewWorld(fmt.Sprintf("gb-%d", rng.Intn(1000)), forced, nil)
+		if forced { // a restart needs one committed block
+			w.HonestBlock(nil, gasReq(w.Height, 1), goattypes.BridgeRequests{}, goattypes.RelayerRequests{})
+		}
 	}
 	fresh()
 	defer func() { w.Close() }()
@@ -162,7 +195,24 @@ func runGoatBlock(rng *Rng, n int, st *Stats, param string) ([]string, []any) {
 		if r.Chance(60) {
 			mem = append(mem, w.blockHashesTx())
 		}
-		fill := w.HonestBlock(mem, gasReq(w.Height, int64(r.Intn(1000))), goattypes.BridgeRequests{}, goattypes.RelayerRequests{})
+		fillReq := gasReq(w.Height, int64(r.Intn(1000)))
+		if r.Chance(55) { // a claim: the locking module has a transaction to hand over in the next payload as well
+			va, _ := valIdentity(w.ValPriv)
+			fillReq.Claims = append(fillReq.Claims, &goattypes.ClaimRequest{Id: uint64(ci), Validator: va, Recipient: common.BytesToAddress([]byte("claimer"))})
+		}
+		if r.Chance(7) { // a full mempool: 20 admissible relayer transactions
+			mem = nil
+			for i := 0; i < 20; i++ {
+				mem = append(mem, w.BuildTx(w.RelPriv, TxOpt{SeqOff: i, CheckState: true}, mkMsg(w, "goat.bitcoin.v1.MsgNewDeposits", w.RelAddr)))
+			}
+			st.Count("honest-block-with-full-mempool")
+		}
+		markCurrent(map[string]any{"kind": "honest-block", "height": w.Height, "mempool": len(mem)})
+		fill := w.HonestBlock(mem, fillReq, goattypes.BridgeRequests{}, goattypes.RelayerRequests{})
+		clearCurrent()
+		if len(fill.PrepareTxs) == 16 {
+			st.Count("honest-proposal-at-the-16-tx-cap")
+		}
 		st.Chk("C08-honest")
 		if fill.Process != "ACCEPT" || len(fill.TxCodes) == 0 || fill.TxCodes[0] != 0 || len(fill.PrepareTxs) > 16 {
 			st.Violate("C08", "honest", "honest-rejected", fmt.Sprintf("an honest proposal was not accepted / its block message failed: process=%s codes=%v err=%s%s", fill.Process, fill.TxCodes, fill.PrepareErr, fill.FinalizeErr), map[string]any{"height": w.Height})
@@ -200,6 +250,9 @@ func runGoatBlock(rng *Rng, n int, st *Stats, param string) ([]string, []any) {
 			continue
 		}
 		blk := w.decodeEthBlock(txs[0])
+		if blk.Payload != nil && len(blk.Payload.ExtraData) > 0 {
+			st.Count(fmt.Sprintf("payload-with-%d-system-txs", blk.Payload.ExtraData[0]))
+		}
 		// C08 (race clause): the payload is shared by the two goroutines of verifyEthBlockProposal; the
 		// conversion used by one of them must leave it untouched (a decoded payload without transactions
 		// has Transactions == nil)
@@ -218,6 +271,16 @@ func runGoatBlock(rng *Rng, n int, st *Stats, param string) ([]string, []any) {
 			}
 		}
 		facts := pfactsGo{true, true, true, true, true, true, 1, true, true, true, true, true}
+		if blk.Payload != nil && len(blk.Payload.ExtraData) > 0 && blk.Payload.ExtraData[0] >= 2 && r.Chance(55) {
+			// both modules hand over a transaction in this payload: concentrate on the system-transaction mutations
+			var sys []blockMut
+			for _, m := range blockMuts {
+				if strings.HasPrefix(m.name, "systx-") || strings.HasPrefix(m.name, "extra-") {
+					sys = append(sys, m)
+				}
+			}
+			mut = sys[r.Intn(len(sys))]
+		}
 		p := clonePayload(blk.Payload)
 		mut.apply(w, p, &facts)
 		if mut.name != "honest" {
@@ -278,7 +341,9 @@ func runGoatBlock(rng *Rng, n int, st *Stats, param string) ([]string, []any) {
 			w.EL.mu.Unlock()
 		}
 		_ = c0
+		markCurrent(map[string]any{"kind": "proposal", "mutation": mut.name, "structural": structural, "height": w.Height, "proposal_txs": len(proposal)})
 		res := w.Process(proposal, proposer)
+		clearCurrent()
 		w.EL.mu.Lock()
 		w.EL.faults = map[int]string{}
 		w.EL.mu.Unlock()
@@ -302,6 +367,31 @@ func runGoatBlock(rng *Rng, n int, st *Stats, param string) ([]string, []any) {
 		}
 		msgOK := "None"
 		headBefore, numBefore, _ := w.HeadInfo()
+		// C09: whatever ProcessProposal said, the block message itself must refuse a payload that is not a valid
+		// child of the recorded head (a finalised block is not necessarily one this node accepted).  On an
+		// on-disk world the rejected proposal is finalised without commit, observed, and discarded by a restart.
+		if !accepted && forced && len(proposal) > 0 && structural == "" && facts.engine {
+			st.Chk("C09-forced-finalize")
+			markCurrent(map[string]any{"kind": "forced-finalize", "mutation": mut.name, "height": w.Height})
+			fr, err := w.Finalize(proposal, proposer)
+			clearCurrent()
+			if err == nil && len(fr.TxResults) > 0 {
+				ok := fr.TxResults[0].Code == 0
+				hAfter, nAfter, _ := w.HeadInfo()
+				desc["forced_code0"] = fr.TxResults[0].Code
+				childOK := facts.parent && facts.number && facts.blob && facts.beacon && facts.propCons
+				st.Count(fmt.Sprintf("forced-finalize:%s:msg-ok=%v", mut.name, ok))
+				if ok && !childOK {
+					desc["head"] = []any{headBefore, hAfter, numBefore, nAfter}
+					st.Violate("C09", "head-step", "head-advanced-by-non-child:"+mut.name, "a finalised block message moved the execution head to a payload that is not a valid child of the recorded head ("+mut.name+")", desc)
+				}
+				if !ok && hAfter != headBefore {
+					st.Violate("C09", "head-step", "head-moved-on-failure", "the execution head moved although the block message failed", desc)
+				}
+				msgOK = fmt.Sprintf("(Some %s)", cBool(ok))
+			}
+			w.Reopen() // discard the uncommitted block
+		}
 		if accepted {
 			w.EL.mu.Lock()
 			cF := len(w.EL.calls)
